@@ -112,6 +112,13 @@ CLAIMED["C13"] = {
     "technique": "contract-based deductive verification: explicit convex-combination witnesses from logged ghost draws, path forking over discrete draws, exact polynomial identities",
 }
 
+CLAIMED["C18"] = {
+    "text": "compute_mean_width on the real code: equals (1/n) sum_r [max_i u_r.x_i - min_i u_r.x_i] for the unit directions of the seed (both vectorized modes, both centring flags), deterministic per seed, translation invariant, homogeneous in positive scale, non-decreasing when a point is added; 1-D clouds give max - min for width and volume, constant clouds volume 0; compute_gamut is the metric of the chromatic reduction of the non-zero rows (divided by the same quantity of the reference, same seed and flags) -- hence scale invariant by C16, exactly 1 relative to itself, <= 1 relative to a superset by monotonicity -- with the at_l1 slice taken first; Jensen-Shannon divergence equals its definition in bits (log uninterpreted, congruence modulo common factors), is symmetric, invariant to normalisation, zero for proportional inputs, raises on negatives, similarity = 1 - divergence; estimator.compute_hull passes gamut points and the monochromatic reference in the same capture space.",
+    "design_ref": "DESIGN.md section 6 C18",
+    "note": A_COMMON + " Not decided (cited / assumed): rotation invariance 'up to Monte-Carlo error' (distributional), the invariances of the volume (those of qhull's volume, an uninterpreted quantity here), JSD <= 1 bit and 'zero ONLY for proportional inputs' (Lin 1991), the flat-cloud PCA fallback of compute_volume (unmodelled). Width: 2-3 points in 2-D, 1 direction quick; JSD vectors of length 2 quick (3 thorough for the definition and symmetry).",
+    "technique": "contract-based deductive verification: spec equality with If-folded max/min, uninterpreted log with congruence normal form, modular plumbing contracts with callee stubs",
+}
+
 NOT_APPLICABLE = {}
 
 FIX_COMMITS = ["b2d156a (np.trapz -> trapezoid)", "1caec1a (negative fit targets no longer declared positive cvxpy parameters)", "f3b37fa (batched_iteration bs > n)", "b98cd56 (poisson baseline tiling)", "d30d941 (minimize .copy())", "35d91a0 (minimize reshape order)", "b90b02d (minimize padded slack)", "7019c2d (excitation baseline)", "3901923 (excitation per-sample)", "b370f4e (adaptive default solver)", "cef6319 (gamut apex = capture at lb)", "f990a92 (hull_dist_scaling forwards relative)", "3b5a1c6 (dichromat chromatic membership)", "be7bf4f (math.factorial in sample_in_hull)"]
